@@ -107,6 +107,7 @@ type Runtime struct {
 	derivedOf     []int
 	defaultSlices [][]argmapper.Arg
 	opSlices      [][]argmapper.Arg
+	echo          reflect.Value
 	FilterCalls   int
 	NilStructOps  map[int][]int // op -> parties that returned a nil struct during it
 	InstErr       error
@@ -621,7 +622,14 @@ func (rt *Runtime) buildParty(pi int) error {
 			}
 		}
 		if p.HasErr {
-			if serr != nil {
+			if echo := rt.echo; echo.IsValid() {
+				rt.echo = reflect.Value{}
+				res = res[:0]
+				for _, t := range outT[:len(outT)-1] {
+					res = append(res, reflect.Zero(t))
+				}
+				res = append(res, echo.Convert(errType))
+			} else if serr != nil {
 				res = append(res, reflect.ValueOf(serr).Convert(errType))
 			} else {
 				res = append(res, reflect.Zero(errType))
@@ -649,6 +657,7 @@ func (rt *Runtime) fault(kind string, pi, n int) bool {
 
 // exec is the body shared by every party: log, online invariant, faults, mint.
 func (rt *Runtime) exec(pi int, in []reflect.Value) (outs []reflect.Value, serr *SimErr, nilStruct bool) {
+	rt.echo = reflect.Value{}
 	simrt.Yield(-1)
 	p := rt.Parties[pi]
 	th := rt.thread()
@@ -676,6 +685,14 @@ func (rt *Runtime) exec(pi int, in []reflect.Value) (outs []reflect.Value, serr 
 	}
 	if !rec.Planning {
 		rt.checkOnline(&rec, p)
+	}
+	if p.HasErr && len(in) > 0 && rt.fault("echo_error", pi, n) && in[0].IsValid() && in[0].Type().Implements(errType) {
+		// the party returns the value it received as its error result (func(error) error)
+		rt.FaultsFired["echo_error"]++
+		rt.echo = in[0]
+		rt.Log = append(rt.Log, rec)
+		simrt.Yield(-2)
+		return nil, nil, false
 	}
 	if p.HasErr && rt.fault("conv_error", pi, n) {
 		rt.nerr++
